@@ -308,7 +308,16 @@ let lp_main guard path tablepath needpath =
             let seq = n_of_dec (kv "seq" k) and tok = unhex (kv "tok" k) and inface = opt_n (kv "inface" k) and mark = opt_n (kv "mark" k) in
             let wire = if op = "SEND" then unhex (kv "wire" k) else pattern_wire (int_of_string (kv "n" k)) in
             let zmtu = z_of_int mtu in
-            let (frames, ns) = send_packet zmtu o seq tok inface mark wire in
+            (* hist = option settings of the link service: constructed with the first, SetOptions for each further one
+               ("fi" digits: fragmentation, incoming-face indication); absent = constructed with the op's options *)
+            let opts_of s = { o_frag = (s.[0] = '1'); o_ifi = (s.[1] = '1') } in
+            let hist = let h = kv "hist" k in if h = "-" then [] else String.split_on_char ',' h in
+            let ls0 = match hist with
+              | [] -> make_ls o
+              | h0 :: rest -> List.fold_left (fun l h -> set_options l (opts_of h)) (make_ls (opts_of h0)) rest in
+            let o = ls0.ls_opts in
+            let (frames, ls1) = ls_send zmtu (set_next_seq ls0 seq) tok inface mark wire in
+            let ns = ls1.ls_seq in
             let (mfit, mover) = List.partition (fun f -> List.length f <= mtu) frames in
             let check () =
               let o_lines = List.rev !obs in
